@@ -69,6 +69,11 @@ func init() {
 	for _, n := range []string{"FastRead", "BLength", "FastWrite"} {
 		fnSpecs = append(fnSpecs, fnSpec{"protocol/thrift", "ApplicationException", n, "AppEx_" + n})
 	}
+	for _, n := range []string{"next", "readBinary", "skipn", "Readn", "ReadBool", "ReadByte", "ReadI16", "ReadI32", "ReadI64", "ReadDouble",
+		"ReadBinary", "ReadString", "ReadMessageBegin", "ReadFieldBegin", "ReadMapBegin", "ReadListBegin", "ReadSetBegin",
+		"Skip", "skipstr", "skipType"} {
+		fnSpecs = append(fnSpecs, fnSpec{"protocol/thrift", "BufferReader", n, "BR_" + n})
+	}
 	fnSpecs = append(fnSpecs, fnSpec{"protocol/thrift/base", "BaseResp", "FastRead", "BaseResp_FastRead"})
 	fnSpecs = append(fnSpecs, fnSpec{"protocol/thrift/base", "Base", "FastRead", "Base_FastRead"})
 	for _, n := range []string{"appendUint32", "appendUint64"} {
@@ -219,6 +224,23 @@ func structOf(t types.Type) (*types.Named, *types.Struct, bool) {
 	return n, st, true
 }
 
+// ifaceRecv: t is a pointer to a struct whose only field is a bufiox.Reader interface value; returns the field name
+func ifaceRecv(t types.Type) (string, bool) {
+	p, ok := t.Underlying().(*types.Pointer)
+	if !ok {
+		return "", false
+	}
+	st, ok := p.Elem().Underlying().(*types.Struct)
+	if !ok || st.NumFields() != 1 {
+		return "", false
+	}
+	n, ok := st.Field(0).Type().(*types.Named)
+	if !ok || n.Obj().Pkg() == nil || n.Obj().Pkg().Path() != mod+"bufiox" || n.Obj().Name() != "Reader" {
+		return "", false
+	}
+	return st.Field(0).Name(), true
+}
+
 func structLeanName(n *types.Named) string { return "S_" + n.Obj().Pkg().Name() + "_" + n.Obj().Name() }
 
 func isIntPtr(t types.Type) bool {
@@ -259,6 +281,8 @@ type fnInfo struct {
 	deps     []*fnInfo
 	recv     *types.Var // a struct receiver the body uses (nil: no receiver, or a stateless one)
 	recvMut  bool       // the body assigns to its fields: the receiver is returned as the first result
+	iface    bool       // the receiver wraps a bufiox.Reader interface value: the receiver IS the abstract reader state ρ,
+	//                     and the function takes `{ρ : Type} (I : ReaderI ρ)` (the behaviour of the interface's methods)
 	labels   map[string][]ast.Stmt // top-level labels: the statements from the label to the end of the body
 	selfrec  bool     // calls itself: defined by recursion on the fuel, loops take the recursive call as a parameter
 	fuel     bool     // has loops (directly or through callees): takes a leading `fuel : Nat`
@@ -487,6 +511,9 @@ func (f *fctx) tyOf(o types.Object) string {
 	if f.views[o] || leanType(o.Type()) == tPtr {
 		return "Bytes"
 	}
+	if _, ok := ifaceRecv(o.Type()); ok {
+		return "ρ"
+	}
 	if n, _, ok := structOf(o.Type()); ok {
 		f.t.structs[structLeanName(n)] = n
 		return structLeanName(n)
@@ -523,7 +550,7 @@ func (f *fctx) recArg() string {
 	for i := 0; i < n; i++ {
 		xs = append(xs, fmt.Sprintf("a%d", i))
 	}
-	return fmt.Sprintf("(fun %s => %s fuel %s)", strings.Join(xs, " "), f.fi.spec.lean, strings.Join(xs, " "))
+	return fmt.Sprintf("(fun %s => %s «GA»fuel %s)", strings.Join(xs, " "), f.fi.spec.lean, strings.Join(xs, " "))
 }
 
 func tupleOf(xs []string, unit string) string {
@@ -582,7 +609,11 @@ func (f *fctx) loopNext(b *blk) {
 		}
 		f.loop = saved
 	}
-	b.add(f.loopCall(l, "fuel"))
+	call := f.loopCall(l, "fuel")
+	if len(l.mods) == 0 {
+		call += " ()"
+	}
+	b.add(call)
 }
 
 func (f *fctx) loopCall(l *loopCtx, fuel string) string {
@@ -679,6 +710,16 @@ func (f *fctx) assignedIn(nodes ...ast.Node) map[types.Object]bool {
 					out[o] = true
 				}
 			case *ast.CallExpr:
+				// a method called on the receiver may change the receiver's state
+				if se, ok := stripParens(x.Fun).(*ast.SelectorExpr); ok && f.fi.recv != nil {
+					root := stripParens(se.X)
+					if inner, ok := root.(*ast.SelectorExpr); ok {
+						root = stripParens(inner.X)
+					}
+					if id, ok := root.(*ast.Ident); ok && info.Uses[id] == types.Object(f.fi.recv) {
+						out[f.fi.recv] = true
+					}
+				}
 				// any argument that is a view, a map, &x or an in/out pointer may be written by the callee
 				for _, a := range x.Args {
 					if o := base(a); o != nil {
@@ -1252,6 +1293,11 @@ func (f *fctx) viewOf(b *blk, e ast.Expr) (types.Object, string, bool) {
 		o := f.pk.TypesInfo.Uses[x]
 		if o != nil && f.views[o] {
 			return o, f.nameOf(o) + "_off", true
+		}
+		if v, ok := o.(*types.Var); ok && leanType(v.Type()) == tBytes && v.Parent() != v.Pkg().Scope() {
+			if _, known := f.names[o]; known {
+				return o, "0", true // a local slice passed whole to a callee that writes through it
+			}
 		}
 	case *ast.SliceExpr:
 		id, ok := stripParens(x.X).(*ast.Ident)
@@ -2007,6 +2053,51 @@ func (f *fctx) callMulti(b *blk, call *ast.CallExpr, n int) []string {
 	if identityFns[recv+"."+name] && len(call.Args) == 1 {
 		return []string{f.expr(b, call.Args[0])}
 	}
+	if recv == "dirtmake" && name == "Bytes" && len(call.Args) == 2 {
+		// a fresh slice with arbitrary contents (here: zeros; every caller overwrites it or returns it next to an error)
+		n := f.expr(b, call.Args[0])
+		t := f.fresh()
+		b.add(fmt.Sprintf("let %s ← dirtyBytes %s", t, atom(n)))
+		return []string{t}
+	}
+	if recv == "" && name == "NewProtocolExceptionWithErr" && len(call.Args) == 1 {
+		return []string{"wrapErr " + atom(f.expr(b, call.Args[0]))}
+	}
+	// a method of the bufiox.Reader interface value held by the receiver: the abstract reader `I`
+	if se, ok := stripParens(call.Fun).(*ast.SelectorExpr); ok && f.fi.iface {
+		if inner, ok := stripParens(se.X).(*ast.SelectorExpr); ok {
+			if id, ok := stripParens(inner.X).(*ast.Ident); ok && info.Uses[id] == types.Object(f.fi.recv) {
+				rn := f.nameOf(f.fi.recv)
+				t := f.fresh()
+				switch se.Sel.Name {
+				case "Next", "Peek":
+					m := map[string]string{"Next": "next", "Peek": "peek"}[se.Sel.Name]
+					a := f.expr(b, call.Args[0])
+					b.add(fmt.Sprintf("let %s ← I.%s %s %s", t, m, rn, atom(a)))
+					b.add(fmt.Sprintf("let %s := %s.2", rn, t))
+					return []string{t + ".1.1", t + ".1.2"}
+				case "Skip":
+					a := f.expr(b, call.Args[0])
+					b.add(fmt.Sprintf("let %s ← I.skip %s %s", t, rn, atom(a)))
+					b.add(fmt.Sprintf("let %s := %s.2", rn, t))
+					return []string{t + ".1"}
+				case "ReadLen":
+					return []string{fmt.Sprintf("I.readLen %s", rn)}
+				case "ReadBinary":
+					o, off, ok := f.viewOf(b, call.Args[0])
+					if !ok {
+						f.fail(call, "ReadBinary into something that is not a written-through slice")
+					}
+					on := f.nameOf(o)
+					b.add(fmt.Sprintf("let %s ← I.readBinary %s (vlen %s %s)", t, rn, on, off))
+					b.add(fmt.Sprintf("let %s := %s.2", rn, t))
+					b.add(fmt.Sprintf("let %s := (vcopy %s %s %s.1.1).1", on, on, off, t))
+					return []string{t + ".1.2.1", t + ".1.2.2"}
+				}
+				f.fail(call, "interface method %s not supported", se.Sel.Name)
+			}
+		}
+	}
 	// a translated function?
 	var callee *types.Func
 	switch fn := stripParens(call.Fun).(type) {
@@ -2038,6 +2129,14 @@ func (f *fctx) callMulti(b *blk, call *ast.CallExpr, n int) []string {
 		}
 	}
 	var args []string
+	if ci.iface {
+		if !f.fi.iface {
+			f.fail(call, "call of %s from a function without an abstract reader", ci.spec.lean)
+		}
+		if !(self && f.loop != nil) {
+			args = append(args, "I")
+		}
+	}
 	for _, g := range ci.globals {
 		args = append(args, "g_"+g)
 	}
@@ -2049,6 +2148,23 @@ func (f *fctx) callMulti(b *blk, call *ast.CallExpr, n int) []string {
 	}
 	sig := callee.Type().(*types.Signature)
 	var mutObjs []types.Object
+	if ci.recv != nil {
+		// a method of the same receiver: pass the receiver's current value, take the new one back
+		se, ok := stripParens(call.Fun).(*ast.SelectorExpr)
+		var ro types.Object
+		if ok {
+			if id, ok := stripParens(se.X).(*ast.Ident); ok {
+				ro = info.Uses[id]
+			}
+		}
+		if ro == nil || f.fi.recv == nil || ro != types.Object(f.fi.recv) {
+			f.fail(call, "method %s called on something that is not the receiver", ci.spec.lean)
+		}
+		args = append(args, f.nameOf(ro))
+		if ci.recvMut {
+			mutObjs = append(mutObjs, ro)
+		}
+	}
 	for i, a := range call.Args {
 		if ci.mutated[i] && leanType(sig.Params().At(i).Type()) != tBytes {
 			// in/out value (a *int or a map): `&x`, or a pointer / map variable passed through
@@ -2159,7 +2275,7 @@ func findMutated(pk *packages.Package, fd *ast.FuncDecl, sig *types.Signature, t
 			case *ast.Ident:
 				name = fn.Name
 			}
-			if (putFns[name] != "" || name == "copy") && len(x.Args) >= 1 {
+			if (putFns[name] != "" || name == "copy" || name == "ReadBinary") && len(x.Args) >= 1 {
 				if o, ok := baseObj(x.Args[0]); ok {
 					mut[idx[o]] = true
 				}
@@ -2201,6 +2317,11 @@ func (t *ftr) prepare(fi *fnInfo) {
 		if c, ok := n.(*ast.CallExpr); ok {
 			if id, ok := stripParens(c.Fun).(*ast.Ident); ok && fi.pk.TypesInfo.Uses[id] == types.Object(fi.obj) {
 				fi.selfrec = true
+			}
+			if se, ok := stripParens(c.Fun).(*ast.SelectorExpr); ok {
+				if sel, ok := fi.pk.TypesInfo.Selections[se]; ok && sel.Obj() == types.Object(fi.obj) {
+					fi.selfrec = true
+				}
 			}
 		}
 		return true
@@ -2248,7 +2369,10 @@ func (t *ftr) translate(fi *fnInfo) {
 		}
 	}
 	if rv := sig.Recv(); rv != nil && rv.Name() != "" && rv.Name() != "_" {
-		if _, _, ok := structOf(rv.Type()); ok {
+		if _, ok := ifaceRecv(rv.Type()); ok {
+			fi.recv, fi.recvMut, fi.iface = rv, true, true
+			params = append(params, fmt.Sprintf("(%s : ρ)", f.nameOf(rv)))
+		} else if _, _, ok := structOf(rv.Type()); ok {
 			used := false
 			ast.Inspect(fi.fd.Body, func(n ast.Node) bool {
 				if id, ok := n.(*ast.Ident); ok && fi.pk.TypesInfo.Uses[id] == types.Object(rv) {
@@ -2320,6 +2444,10 @@ func (t *ftr) translate(fi *fnInfo) {
 	}
 	var gparams []string
 	var gargs []string
+	if fi.iface {
+		gparams = append(gparams, "{ρ : Type} (I : ReaderI ρ)")
+		gargs = append(gargs, "I")
+	}
 	for _, g := range fi.globals {
 		gparams = append(gparams, fmt.Sprintf("(g_%s : Bool)", g))
 		gargs = append(gargs, "g_"+g)
@@ -2358,6 +2486,9 @@ func (t *ftr) translate(fi *fnInfo) {
 		// a self-recursive function: structural recursion on the fuel
 		pts := f.paramTypes()
 		var pn []string
+		if fi.recv != nil {
+			pn = append(pn, f.names[fi.recv])
+		}
 		for i := 0; i < sig.Params().Len(); i++ {
 			p := sig.Params().At(i)
 			pn = append(pn, f.names[p])
